@@ -504,6 +504,9 @@ func (c *Collection) SetCallback(setCallbackFunc any) error {
 	if setterType.Kind() != reflect.Func {
 		return fmt.Errorf("SetCallback must be passed a function")
 	}
+	if setter.IsNil() {
+		return fmt.Errorf("SetCallback must be passed a function that is not nil")
+	}
 	if setterType.NumIn() < 1 || setterType.NumIn() > 2 {
 		return fmt.Errorf("SetCallback function argument must take one or two inputs")
 	}
